@@ -576,6 +576,7 @@ def _assemble(template_path, repo, vacuity=False):
                 # a hint of this function lost its anchor: proof hints may depend on each other (ghost variables), so ALL hints of the
                 # function are dropped and it is verified against its contract (signature clauses) alone
                 LENIENT['dropped'].append('%s: all proof hints of this function dropped, contract clauses kept' % fid_out)
+                meta.setdefault('degraded_fns', []).append(fid_out)
                 sections = dict((k_, v_) for k_, v_ in sections.items() if k_[0] in ('sig', 'attr'))
                 text = splice_fn(fid_out, text0, sections, opts)
             meta.setdefault('_spliced', {})[fid_out] = (text, rel, src.count('\n', 0, s) + 1, hashlib.sha256(raw.encode()).hexdigest(), name)
